@@ -3,9 +3,10 @@
 # Confirms a sub-agent's seeded change in a fresh scratch worktree and stores it under /verif/seeded/.
 set -u
 ID="$1"; X="$2"; NEEDS="${3:-see notes.md}"
-SRC=/tmp/seed_out/$ID
+SRCROOT="${4:-/tmp/seed_out}"; NAME="${6:-$X}"
+SRC=$SRCROOT/$ID
 WT=$(mktemp -d /var/tmp/verif-seed-XXXXXX); rmdir "$WT"
-BASE=$(cat /root/.vp/repo_root_sha 2>/dev/null || git -C /repo rev-list --max-parents=0 HEAD)
+BASE="${5:-$(cat /root/.vp/repo_root_sha 2>/dev/null || git -C /repo rev-list --max-parents=0 HEAD)}"
 git -C /repo worktree add -f "$WT" "$BASE" -q || exit 3
 run_demo() { (cd "$WT" && PYTHONPATH="$WT" timeout 600 /venv/bin/python "$SRC/${X}_demo.py" >/dev/null 2>&1; echo $?); }
 R0=$(run_demo)
@@ -19,13 +20,13 @@ T=$(cat /var/tmp/seedtest.$$); rm -f /var/tmp/seedtest.$$
 echo "$ID-$X: demo clean=$R0 patched=$R1 tests: $T"
 git -C /repo worktree remove --force "$WT"
 if [ "$R0" = "0" ] && [ "$R1" != "0" ] && echo "$T" | grep -q " passed" && ! echo "$T" | grep -qE "[0-9]+ (failed|error)"; then
-  D=/verif/seeded/$ID-$X; mkdir -p "$D"
+  D=/verif/seeded/$ID-$NAME; mkdir -p "$D"
   cp "$SRC/${X}_patch.diff" "$D/patch.diff"; cp "$SRC/${X}_demo.py" "$D/demo.py"; cp "$SRC/${X}_notes.md" "$D/notes.md" 2>/dev/null
   /venv/bin/python - "$ID" "$X" "$NEEDS" "$T" "$D" <<'PY'
 import json, sys
 i, x, needs, t, d = sys.argv[1:]
 json.dump(dict(property=i, variant=x, breaks=i, needs_to_manifest=needs,
-               confirmed=dict(base='pinned commit (scratch worktree)', demo_exit_clean=0, demo_exit_patched='non-zero',
+               confirmed=dict(base='scratch worktree at the commit the sub-agent worked on', demo_exit_clean=0, demo_exit_patched='non-zero',
                               tests_run='pytest glue/core glue/utils (tests failing on the unchanged tree offline excluded); '
                                         'sub-agent additionally ran the full suite', tests_result=t),
                source='independent sub-agent given only the property text'), open(d + '/meta.json', 'w'), indent=1)
